@@ -18,6 +18,9 @@ RULE = ('histories: Kekule seed molecule (corpus <= 30 atoms, curated, construct
         'with reads of drawn subsets of 14 derived values (so values are cached in every order). after every step an independently '
         'rebuilt molecule (fresh container, same numbers and insertion order, labels transferred through the public setters) must '
         'report the same values; rollback restores the pre-transaction values; editing a derived object leaves its source unchanged. '
+        'plus (exhaustive tier) every ordered pair of concrete operations (~170 per seed) on 8 seeds of <= 4 atoms, once with all values '
+        'read after every step and once with single rotating reads before and between (quick: 1/40 slice rotating with the seed). '
+        'half of the random histories likewise read only at the drawn read steps and at the end. '
         'non-trivial = history has read -> mutate -> read on the same value; distinct by operation list')
 ASSUMPTIONS = ['edits are applied to Kekule forms only (aromatic forms are documented as unsupported for editing)',
                'canonical-string comparison is skipped (counted) where the C01 symmetry oracle places the molecule in a documented gap or known finding',
@@ -33,13 +36,60 @@ PIECES = ['C', 'CC', 'O', 'N', 'C=O', 'C1CC1', 'c1ccccc1', '[Na+]', 'CO', 'C[C@H
 
 def shards(tier, seed):
     n = 220 if tier == 'quick' else 4000
-    return [dict(shard=i, n=n) for i in range(16)]
+    out = [dict(kind='hist', shard=i, n=n) for i in range(16)]
+    # exhaustive tier: every pair of concrete operations on tiny seeds (DESIGN 2/C13); quick runs a 1/40 slice rotating with the seed
+    parts = 40 if tier == 'quick' else 1
+    per = 16
+    for i in range(per):
+        out.append(dict(kind='exh', part=(seed % parts) * per + i, parts=parts * per))
+    return out
+
+
+TINY = ['CC', 'C=C', 'CCO', 'C1CC1', 'C[C@H](N)O', 'C.O', 'C=CC=C', 'C[NH3+]']
+
+
+def concrete_ops():
+    """every concrete operation the interpreter can perform on a molecule of <= 5 atoms (arguments are taken modulo sizes)"""
+    out = []
+    for a in (0, 3, 7):
+        out.append(('add_atom', a, 0, 0))
+        out += [('add_atom', a, b, 4) for b in range(5)]
+    out += [('add_bond', a, b, c) for a in range(5) for b in range(a + 1, 5) for c in (0, 3, 5)]
+    out += [('delete_atom', a, 0, 0) for a in range(5)]
+    out += [('delete_bond', a, 0, 0) for a in range(5)]
+    out += [('commit', a, 0, 0) for a in range(5)] + [('commit', a, 1, c) for a in range(5) for c in range(3)]
+    out += [('rollback', a, b, c) for a in range(5) for b in (0, 1) for c in (0, 1)]
+    out += [('remap', 0, 0, 0), ('remap', 1, 1, 0), ('copy', 0, 0, 0)]
+    out += [('substructure', a, 0, 0) for a in range(3)]
+    out += [(op, a, 0, 0) for op in ('union', 'ior') for a in (0, 5, 9)]
+    out += [('clean_stereo', 0, 0, 0)] + [('label', a, b, 0) for a in (0, 1) for b in (0, 1)] + [('hydrogens', a, 0, 0) for a in (0, 1)]
+    return out
+
+
+def exhaustive_cases(shard):
+    ops = concrete_ops()
+    idx = 0
+    for smi in TINY:
+        for i, o1 in enumerate(ops):
+            for j, o2 in enumerate(ops):
+                idx += 1
+                if idx % shard['parts'] != shard['part']:
+                    continue
+                # dense: every value is read after every step; sparse: one rotating value before, between and all at the end
+                yield {'seed_mol': {'k': 'smi', 's': smi}, 'ops': [list(o1), list(o2)], 'exh': True}
+                k1, k2 = (i * 7 + j) % len(READS), (i + j * 5) % len(READS)
+                yield {'seed_mol': {'k': 'smi', 's': smi}, 'sparse': True, 'exh': True,
+                       'ops': [['read', k1, 0, 0], list(o1), ['read', k2, 0, 0], list(o2)]}
 
 
 def run_shard(shard, tier, seed):
+    if shard['kind'] == 'exh':
+        from ..core import direct_run
+        return direct_run(ID, exhaustive_cases(shard), check_case)
     op = st.tuples(st.sampled_from(OPS), st.integers(0, 2 ** 16), st.integers(0, 2 ** 16), st.integers(0, 2 ** 16))
     strat = st.fixed_dictionaries({
         'seed_mol': molgen.mol_specs(max_atoms=10, corpus_w=3, curated_w=3, graph_w=6, literal_w=1, sym_w=2),
+        'sparse': st.booleans(),
         'ops': st.lists(op, min_size=3, max_size=14)})
     return hyp_run(ID, strat, check_case, max_examples=shard['n'], seed=seed * 1000 + shard['shard'])
 
@@ -121,11 +171,16 @@ def symmetric_ok(m, rec, where):
         rec.fail('adjacency', f'{where}: atoms and adjacency rows differ')
 
 
-def compare_with_rebuild(m, rec, where, which=READS):
+def compare_with_rebuild(m, rec, where, which=READS, pure=False):
+    """pure: everything except the requested values is read from a copy, so the cache state of m is touched by `which` only"""
     from ..oracles import wl
-    ok, (r, left) = rec.guard('rebuild', rebuilt, m)
+    target = m
+    if pure:
+        m = target.copy()
+    ok, val = rec.guard('rebuild', rebuilt, m)
     if not ok:
         return
+    r, left = val
     if left:
         try:
             col, adj = wl.constitution(m)
@@ -153,7 +208,7 @@ def compare_with_rebuild(m, rec, where, which=READS):
         if any(a.stereo is not None for _, a in m.atoms()) or any(b.stereo is not None for *_, b in m.bonds()):
             which = [w for w in which if w != 'str']
         rec.count('ring-set-dependent values skipped (minimum cycle basis not unique)')
-    got, want = derived(m, which, unique), derived(r, which, unique)
+    got, want = derived(target, which, unique), derived(r, which, unique)
     for k in got:
         if got[k] != want[k]:
             if k == 'sssr' and not isinstance(got[k], tuple) and not isinstance(want[k], tuple):
@@ -191,6 +246,13 @@ def check_case(case, rec):
         rec.count('skip:seed-too-large')
         return
     m = m.copy()
+    # the oracle reconstructs molecules through the API, which derives hydrogen counts: a seed whose stored counts are not the
+    # derived ones ([13C] read from text keeps zero hydrogens) cannot be judged that way
+    r0, left0 = rebuilt(m)
+    if left0 or molgen.snapshot(r0) != molgen.snapshot(m):
+        rec.count('generator-reject:seed labels/hydrogens not derivable through the API')
+        return
+    sparse = bool(case.get('sparse'))
     history = []
     read_before = set()
     mutated_since = False
@@ -212,7 +274,7 @@ def check_case(case, rec):
                     nontrivial = True
                 read_before |= set(which)
                 history.append(f'read:{",".join(which)}')
-                compare_with_rebuild(m, rec, where, which)
+                compare_with_rebuild(m, rec, where, which, pure=sparse)
                 continue
             if op == 'add_atom':
                 n = m.add_atom(ELEMS[a % len(ELEMS)], *([max(nums) + 1 + b % 50] if c % 2 else []))
@@ -248,7 +310,9 @@ def check_case(case, rec):
                         m.atom(x).is_radical = not m.atom(x).is_radical
                 history.append(f'commit:{x}')
             elif op == 'rollback':
-                before_plain, before_vals = plain(m), derived(m)
+                # sparse histories cache only a few values before the transaction (which ones rotates with the arguments)
+                rb_which = READS if not sparse else [READS[(a + i * 3) % len(READS)] for i in range(3)]
+                before_plain, before_vals = plain(m), derived(m, rb_which)
                 x = nums[a % len(nums)]
                 try:
                     with m:
@@ -264,7 +328,7 @@ def check_case(case, rec):
                 if plain(m) != before_plain:
                     rec.fail('rollback', f'{where}: molecule differs from the state before the failed transaction', sig='plain')
                     return
-                after = derived(m)
+                after = derived(m, rb_which)
                 for k in after:
                     if after[k] != before_vals[k]:
                         rec.fail('rollback', f'{where}: {k} = {str(after[k])[:120]} after rollback, {str(before_vals[k])[:120]} before',
@@ -333,11 +397,20 @@ def check_case(case, rec):
             mutated_since = True
         where = f'after {history} on seed {str(molgen.build_kekule(case["seed_mol"]))!r}'
         symmetric_ok(m, rec, where)
-        compare_with_rebuild(m, rec, where)
+        if not sparse:
+            compare_with_rebuild(m, rec, where)
         for src, snap, vals, how in sources[-3:]:
             if plain(src) != snap or derived(src, ['str', 'labels']) != vals:
                 rec.fail('independence', f'{where}: the source of a {how} changed when the derived object was edited', sig=how)
                 return
+    if sparse and len(m):
+        compare_with_rebuild(m, rec, f'at the end of {history} on seed {str(molgen.build_kekule(case["seed_mol"]))!r}')
+    rec.count('mode:sparse-reads' if sparse else 'mode:all-values-after-every-step')
+    if case.get('exh'):
+        rec.count('exhaustive-pairs')
+        if len(history) >= 2:
+            rec.nt(tuple(history))
+        return
     if nontrivial:
         rec.nt(tuple(history))
         rec.sample('history', history, cap=6)
